@@ -1,12 +1,153 @@
-// Package c09: correspondence harness of C09 (stub: replaced when C09 is built).
 package c09
 
 import (
+	"bufio"
 	"fmt"
+	"os"
+	"path/filepath"
+	"sort"
+	"strings"
 
 	"verifharness/internal/hx"
 )
 
+// Run: the behavioural battery of C09.  Every case is a singleton package (one call of one
+// plugin); the observation is  (run <plugin> (<argument types>) <class>)  where class is
+// ok | badfile | adderr | generr | cannot | loaderr | crash.  Broken user files give
+// (broken <mutation> <class>).
 func Run(cfg hx.Config) (*hx.Meta, error) {
-	return nil, fmt.Errorf("C09: harness not built yet")
+	meta := &hx.Meta{Property: "C09", Seed: cfg.Seed, Tier: cfg.Tier}
+	r := hx.NewRand(cfg.Seed)
+
+	corpus, err := loadCorpus(cfg.Corpus)
+	if err != nil {
+		return nil, err
+	}
+	cases := append(corpus, Cases(r.Fork(1), cfg.Tier)...)
+	// de-duplicate (same plugin, same argument types)
+	seen := map[string]bool{}
+	var uniq []Case
+	for _, c := range cases {
+		k := c.Plugin + " " + c.ArgsSexp()
+		valid := true
+		for _, a := range c.Args {
+			valid = valid && a.ValidArg()
+		}
+		if !valid {
+			continue // the user file itself would not type-check: covered by the broken-file battery
+		}
+		if !seen[k] {
+			seen[k] = true
+			uniq = append(uniq, c)
+		}
+	}
+	cases = uniq
+
+	outs := make([]Outcome, len(cases))
+	hx.Parallel(len(cases), 16, func(i int) {
+		dir := filepath.Join(cfg.Work, fmt.Sprintf("c%05d", i))
+		outs[i] = RunFiles(cfg, dir, map[string]string{"u.go": cases[i].Source()}, false)
+		if os.Getenv("C09_KEEP") == "" {
+			os.RemoveAll(dir)
+		}
+	})
+
+	obsPath := filepath.Join(cfg.Out, "c09-run.obs")
+	f, err := os.Create(obsPath)
+	if err != nil {
+		return nil, err
+	}
+	w := bufio.NewWriter(f)
+	var dump *bufio.Writer
+	if p := os.Getenv("C09_DUMP"); p != "" {
+		df, err := os.Create(p)
+		if err != nil {
+			return nil, err
+		}
+		defer df.Close()
+		dump = bufio.NewWriter(df)
+		defer dump.Flush()
+	}
+	detail := map[string]string{}
+	for i, c := range cases {
+		o := outs[i]
+		if o.Class == "harness-error" {
+			return nil, fmt.Errorf("C09 harness: %s", o.Detail)
+		}
+		line := fmt.Sprintf("(run %s %s %s)", c.Plugin, c.ArgsSexp(), o.Class)
+		fmt.Fprintln(w, line)
+		meta.Count("class/" + strings.SplitN(c.Class, "/", 2)[0])
+		meta.Count("plugin/" + c.Plugin)
+		meta.Count("observed/" + o.Class)
+		if o.Class == "crash" || o.Class == "badfile" {
+			detail[line] = o.Detail
+		}
+		if dump != nil {
+			fmt.Fprintf(dump, "%s\t%s\t%s\t%s\t%s\n", o.Class, c.Plugin, c.Class, c.ArgsSexp(), strings.ReplaceAll(hx.Truncate(o.Detail, 300), "\n", " | "))
+		}
+		if i%97 == 0 {
+			meta.Sample(line)
+		}
+	}
+	w.Flush()
+	f.Close()
+	meta.ObsFiles = append(meta.ObsFiles, obsPath)
+	meta.Packages += len(cases)
+	meta.GoderiveRuns += len(cases)
+	meta.Cases += len(cases)
+
+	// details of crashes / bad files, for the replay files (keyed by observation line)
+	if len(detail) > 0 {
+		keys := make([]string, 0, len(detail))
+		for k := range detail {
+			keys = append(keys, k)
+		}
+		sort.Strings(keys)
+		df, err := os.Create(filepath.Join(cfg.Out, "c09-details.txt"))
+		if err == nil {
+			for _, k := range keys {
+				fmt.Fprintf(df, "%s\n    %s\n", k, strings.ReplaceAll(detail[k], "\n", "\n    "))
+			}
+			df.Close()
+		}
+	}
+
+	if err := runBroken(cfg, r.Fork(2), meta); err != nil {
+		return nil, err
+	}
+	return meta, nil
+}
+
+// loadCorpus: corpus/C09/*.case — one case per line: <plugin> <args sexp>; parsed back into Ty.
+func loadCorpus(dir string) ([]Case, error) {
+	ents, err := os.ReadDir(dir)
+	if err != nil {
+		return nil, nil
+	}
+	var cs []Case
+	for _, e := range ents {
+		if !strings.HasSuffix(e.Name(), ".case") {
+			continue
+		}
+		b, err := os.ReadFile(filepath.Join(dir, e.Name()))
+		if err != nil {
+			return nil, err
+		}
+		for _, line := range strings.Split(string(b), "\n") {
+			line = strings.TrimSpace(line)
+			if line == "" || strings.HasPrefix(line, "#") {
+				continue
+			}
+			sp := strings.SplitN(line, " ", 2)
+			if len(sp) != 2 {
+				return nil, fmt.Errorf("corpus %s: bad line %q", e.Name(), line)
+			}
+			args, err := parseArgs(sp[1])
+			if err != nil {
+				return nil, fmt.Errorf("corpus %s: %v in %q", e.Name(), err, line)
+			}
+			cs = append(cs, Case{sp[0], args, "corpus/" + strings.TrimSuffix(e.Name(), ".case")})
+		}
+	}
+	return cs, nil
 }
